@@ -544,6 +544,20 @@ func TestTimeAndDurationGrid(t *testing.T) {
 				}
 			}
 		}
+		if nano {
+			// the two ends of what UnixNano can express, to the nanosecond (the first and the last second of the
+			// range are partial seconds)
+			for _, e := range [][2]int64{{-9223372037, 145224192}, {-9223372037, 145224193}, {-9223372037, 500000000}, {-9223372037, 999999999}, {-9223372036, 0},
+				{9223372036, 0}, {9223372036, 1}, {9223372036, 854775806}, {9223372036, 854775807}, {9223372035, 999999999}} {
+				for _, z := range zones {
+					v := lp.Val{T: "time", Sec: e[0], Nsec: e[1], Zone: z}
+					recVal(set, v, "time-grid")
+					if p, msg := checkEntryPoints(set, v); msg != "" {
+						fail(t, "time", p, msg)
+					}
+				}
+			}
+		}
 		if !nano {
 			v := lp.Val{T: "time", Zero: true}
 			recVal(set, v, "time-grid")
